@@ -79,6 +79,12 @@ Theorem C03_batches_lossless : forall tchunks rchunks r l,
 Proof. intros. split; [apply batches_lossless_tombs|apply batches_lossless_rows]. Qed.
 Print Assumptions C03_batches_lossless.
 
+(* ... also when the last batch is empty (the number of rows to fetch is an exact multiple of the batch
+   size of synchronise_day, 2048): checked on the code by the harness case 'batch_boundary' *)
+Theorem C03_batches_empty_tail : forall (chunks : list (list nrow)) l, put_batches (chunks ++ [[]]) l = put_batches chunks l.
+Proof. exact batches_empty_tail. Qed.
+Print Assumptions C03_batches_empty_tail.
+
 (* between replicas without deletion records: Node::filter_existing + write implement the join
    "greatest (modification date, signature) per row id" *)
 Theorem C03_lww_join : forall dst src days x,
